@@ -117,7 +117,7 @@ func worldC11(w *World) {
 			ss.batches = append(ss.batches, ss.cmsgs[i:i+k])
 			i += k
 		}
-		if !ss.backendCloses && t.Rare(1, 15, "bigpost") && !sim.RaceEnabled {
+		if !ss.backendCloses && t.Rare(1, 15, "bigpost") && w.Cfg != "nobig" {
 			// one data post well above 2 MiB: a few large binary messages sent together
 			var big []wsMsg
 			for k := 0; k < 3; k++ {
